@@ -31,6 +31,7 @@ DAILY_PROFILES = {
                                          "final_bounds_scalar": None}),
     "legacy_dev_aic": ("legacy", {"developer_mode": True, "silent_developer_mode": True,
                                   "split_selection": {"criteria": "aic", "allow_separate_weekday_weekend": True}}),
+    "legacy_dev_step": ("legacy", {"developer_mode": True, "silent_developer_mode": True, "initial_step_percentage": 0.25}),
     "current": ("current", None),
     "current_dev_nosmooth": ("current", {"developer_mode": True, "silent_developer_mode": True, "allow_smooth_model": False}),
 }
@@ -59,6 +60,8 @@ HOURLY_PROFILES = {
     "hourly_equal_count": {"seed": 5, "temperature_bin": {"method": "equal_sample_count", "n_bins": 6, "bin_width": None, "include_edge_bins": False,
                                                            "edge_bin_rate": None, "edge_bin_percent": None}},
     "hourly_no_bins": {"seed": 5, "temperature_bin": None},
+    "hourly_seed0": {"seed": 0},
+    "hourly_features_reordered": {"seed": 5, "train_features": ["ghi", "temperature"]},
     "hourly_no_edge_bins": {"seed": 5, "temperature_bin": {"include_edge_bins": False, "edge_bin_rate": None, "edge_bin_percent": None}},
 }
 
@@ -73,7 +76,7 @@ def baseline(draw, family=None, profiles=None, cheap=True, full_year=True, tzs=N
         b["profile"] = draw(st.sampled_from(profiles or list(BILLING_PROFILES)))
     elif fam == "hourly":
         b["profile"] = draw(st.sampled_from(profiles or list(HOURLY_PROFILES)))
-        b["ghi"] = draw(st.booleans()) if b["profile"] not in ("hourly_solar_obj",) else True
+        b["ghi"] = draw(st.booleans()) if b["profile"] not in ("hourly_solar_obj", "hourly_features_reordered") else True
         if b["profile"] == "hourly_nonsolar_obj":
             b["ghi"] = False
     else:
